@@ -61,14 +61,18 @@ static inline void ABTI_mutex_lock_no_recursion(ABTI_local **pp_local,
 #ifndef ABT_CONFIG_USE_SIMPLE_MUTEX
     while (ABTD_spinlock_try_acquire(&p_mutex->lock)) {
         /* Failed to take a lock, so let's add it to the waiter list. */
+        ABTI_VERIF_POINT(ABTI_VERIF_P_MUTEX_LOCK_AFTER_FAIL);
         ABTD_spinlock_acquire(&p_mutex->waiter_lock);
         /* Maybe the mutex lock has been already released.  Check it. */
+        ABTI_VERIF_POINT(ABTI_VERIF_P_MUTEX_LOCK_BEFORE_RETRY);
         if (!ABTD_spinlock_try_acquire(&p_mutex->lock)) {
             /* Lock has been taken. */
+            ABTI_VERIF_COV(ABTI_VERIF_C_MUTEX_LOCK_RETRY_WON);
             ABTD_spinlock_release(&p_mutex->waiter_lock);
             break;
         }
         /* Wait on waitlist. */
+        ABTI_VERIF_COV(ABTI_VERIF_C_MUTEX_LOCK_WAIT);
         ABTI_waitlist_wait_and_unlock(pp_local, &p_mutex->waitlist,
                                       &p_mutex->waiter_lock,
                                       ABT_SYNC_EVENT_TYPE_MUTEX,
@@ -175,8 +179,10 @@ static inline void ABTI_mutex_unlock_no_recursion(ABTI_local *p_local,
 {
 #ifndef ABT_CONFIG_USE_SIMPLE_MUTEX
     ABTD_spinlock_acquire(&p_mutex->waiter_lock);
+    ABTI_VERIF_POINT(ABTI_VERIF_P_MUTEX_UNLOCK_BEFORE_RELEASE);
     ABTD_spinlock_release(&p_mutex->lock);
     /* Operations of waitlist must be done while taking waiter_lock. */
+    ABTI_VERIF_POINT(ABTI_VERIF_P_MUTEX_UNLOCK_BEFORE_BROADCAST);
     ABTI_waitlist_broadcast(p_local, &p_mutex->waitlist);
     ABTD_spinlock_release(&p_mutex->waiter_lock);
 #else
